@@ -525,7 +525,8 @@ func (sm *shardManagerImpl) UnregisterShard(clientShardID history.ClusterShardID
 		sm.mutex.Unlock()
 		verifPoint("UnregisterShard.afterUnlock")
 
-		sm.removeLocalShard(clientShardID)
+		// The entry was removed above, under the lock and only because its timestamp matched. It must not be deleted
+		// again here: a RegisterShard of the next incarnation may already have put its own entry in place.
 		sm.broadcastShardChange("unregister", clientShardID, time.Now())
 
 		// Trigger memberlist metadata update to propagate NodeMeta to other nodes
@@ -1065,14 +1066,6 @@ func (sm *shardManagerImpl) addLocalShard(shard history.ClusterShardID) time.Tim
 	sm.localShards[key] = ShardInfo{ID: shard, Created: now}
 
 	return now
-}
-
-func (sm *shardManagerImpl) removeLocalShard(shard history.ClusterShardID) {
-	sm.mutex.Lock()
-	defer sm.mutex.Unlock()
-
-	key := ClusterShardIDtoShortString(shard)
-	delete(sm.localShards, key)
 }
 
 // RegisterActiveReceiver registers an active receiver for watermark propagation
